@@ -1,11 +1,12 @@
 // crashdiff — property C06 against the REAL server binary: `resonate serve` (built from /repo) on a sqlite file,
 // concurrent HTTP clients, SIGKILL at a random moment (repeatedly, also during recovery), restart on the same file,
 // and finally a graceful SIGTERM.  Checked on the implementation:
-//   * every write the server ACKNOWLEDGED before a kill (2xx to create / complete / callback) is there after restart,
+//   - every write the server ACKNOWLEDGED before a kill (2xx to create / complete / callback) is there after restart,
 //     unchanged (state, value, parameter, timeout, idempotency keys);
-//   * the database found after every kill satisfies the all-or-nothing invariants (no registration on a completed or
+//   - the database found after every kill satisfies the all-or-nothing invariants (no registration on a completed or
 //     missing promise; a promise routed by a plain tag has its invocation task; a completed promise has no live task);
-//   * the server starts again on whatever file a kill leaves behind and keeps answering.
+//   - the server starts again on whatever file a kill leaves behind and keeps answering.
+//
 // What a committed sqlite transaction survives below the process level (power loss, fsync) is sqlite's.
 package main
 
@@ -326,6 +327,70 @@ func main() {
 		summary["divergence_file"] = path
 		summary["divergence"] = what
 		summary["property_violation"] = true
+	}
+	// sparse databases: ONE acknowledged write of one kind on a fresh file, a graceful shutdown with the default configuration,
+	// a restart on the same file — the write is still there (whatever else the database holds or does not hold)
+	if summary["disagreements"] == 0 {
+		c := &http.Client{Timeout: 5 * time.Second}
+		for _, kind := range []string{"lock", "schedule", "promise", "lock+schedule"} {
+			db := filepath.Join(*work, "sparse-"+kind+".db")
+			for _, suf := range []string{"", "-wal", "-shm", "-journal"} {
+				os.Remove(db + suf)
+			}
+			s, err := start(bin, db)
+			if err != nil {
+				fail("the server does not start on a fresh file", M{"kind": kind, "error": err.Error()})
+				break
+			}
+			acked := map[string]bool{}
+			if strings.Contains(kind, "lock") {
+				st, _ := do(c, "POST", s.base+"/locks/acquire", nil, M{"resourceId": "res", "executionId": "e1", "processId": "w1", "ttl": 3600000})
+				acked["lock"] = st == 201
+			}
+			if strings.Contains(kind, "schedule") {
+				st, _ := do(c, "POST", s.base+"/schedules", nil, M{"id": "sch", "cron": "0 0 1 1 *", "promiseId": "sch.{{.timestamp}}", "promiseTimeout": 1000})
+				acked["schedule"] = st == 201
+			}
+			if kind == "promise" {
+				st, _ := do(c, "POST", s.base+"/promises", nil, M{"id": "sparse", "timeout": time.Now().UnixMilli() + 3600_000})
+				acked["promise"] = st == 201
+			}
+			s.kill(syscall.SIGTERM)
+			s2, err := start(bin, db)
+			if err != nil {
+				fail("the server does not start after a graceful shutdown", M{"kind": kind, "error": err.Error()})
+				break
+			}
+			what := ""
+			if acked["lock"] {
+				if st, _ := do(c, "POST", s2.base+"/locks/acquire", nil, M{"resourceId": "res", "executionId": "e2", "processId": "w2", "ttl": 1000}); st != 403 {
+					what = fmt.Sprintf("the lock on res was acquired by e1 (201, ttl one hour) before a graceful shutdown; after the restart another execution acquires it (status %d)", st)
+				}
+			}
+			if acked["schedule"] && what == "" {
+				if st, _ := do(c, "GET", s2.base+"/schedules/sch", nil, nil); st != 200 {
+					what = fmt.Sprintf("schedule sch was created (201) before a graceful shutdown and is gone after the restart (GET -> %d)", st)
+				}
+			}
+			if acked["promise"] && what == "" {
+				if st, _ := do(c, "GET", s2.base+"/promises/sparse", nil, nil); st != 200 {
+					what = fmt.Sprintf("promise sparse was created (201) before a graceful shutdown and is gone after the restart (GET -> %d)", st)
+				}
+			}
+			s2.kill(syscall.SIGKILL)
+			for _, suf := range []string{"", "-wal", "-shm", "-journal"} {
+				os.Remove(db + suf)
+			}
+			if what != "" {
+				fail(what, M{"kind": kind, "after": "graceful shutdown of a sparse database"})
+				break
+			}
+			for k, v := range acked {
+				if v {
+					counts["sparse_graceful:"+k]++
+				}
+			}
+		}
 	}
 rounds:
 	for rd := 0; rd < *rounds && summary["disagreements"] == 0; rd++ {
